@@ -19,7 +19,32 @@ TraceInit == /\ tid \in 1..Len(Traces)
              /\ RollInit(Traces[tid].op, Traces[tid].W, Traces[tid].minp)
              /\ i = 0
 
-TraceRow == /\ T.out = "ok" /\ i < N /\ Len(T.res) = N /\ (IF "hi" \in DOMAIN T THEN Len(T.hi) = N ELSE TRUE)
+(* long mode (one group of tens of thousands of rows, every row selected, no null value): the row-by-row replay with  *)
+(* its history is quadratic, so the definition is evaluated directly on the logged sequences (counter widths 2^15,     *)
+(* 2^16 of the kernels are out of reach of the small model).                                                           *)
+IsLong == "long" \in DOMAIN T
+RECURSIVE SumRange(_, _, _)
+SumRange(v, a, b) == IF a > b THEN 0 ELSE v[a] + SumRange(v, a + 1, b)
+RECURSIVE MaxRange(_, _, _)
+MaxRange(v, a, b) == IF a = b THEN v[a] ELSE LET m == MaxRange(v, a + 1, b) IN IF v[a] > m THEN v[a] ELSE m
+RECURSIVE MinRange(_, _, _)
+MinRange(v, a, b) == IF a = b THEN v[a] ELSE LET m == MinRange(v, a + 1, b) IN IF v[a] < m THEN v[a] ELSE m
+LongDef(r) ==
+  LET TW == T.W IN
+  CASE T.op = "shift" -> IF r <= TW THEN Null ELSE T.vals[r - TW]
+    [] T.op = "diff"  -> IF r <= TW THEN Null ELSE T.vals[r] - T.vals[r - TW]
+    [] T.op = "sum"   -> IF r < T.minp THEN Null ELSE SumRange(T.vals, IF r > TW THEN r - TW + 1 ELSE 1, r)
+    [] T.op = "max"   -> IF r < T.minp THEN Null ELSE MaxRange(T.vals, IF r > TW THEN r - TW + 1 ELSE 1, r)
+    [] T.op = "min"   -> IF r < T.minp THEN Null ELSE MinRange(T.vals, IF r > TW THEN r - TW + 1 ELSE 1, r)
+LongOk == /\ T.out = "ok" /\ Len(T.res) = N /\ Len(T.vals) = N
+          /\ T.op \in {"shift", "diff", "sum", "max", "min"}
+          /\ \A r \in 1..N : T.keys[r] = 1 /\ T.sel[r] = 1 /\ T.res[r] = LongDef(r)
+TraceLong == /\ IsLong /\ i = 0 /\ LongOk
+             /\ i' = N + 1
+             /\ PrintT(<<"ACCEPT", tid>>)
+             /\ UNCHANGED <<rvars, tid>>
+
+TraceRow == /\ ~IsLong /\ T.out = "ok" /\ i < N /\ Len(T.res) = N /\ (IF "hi" \in DOMAIN T THEN Len(T.hi) = N ELSE TRUE)
             /\ RowRoll(T.keys[i + 1], T.vals[i + 1], T.sel[i + 1] = 1)
             /\ i' = i + 1
             /\ (Diag \/ LET r == i + 1 IN
@@ -27,13 +52,13 @@ TraceRow == /\ T.out = "ok" /\ i < N /\ Len(T.res) = N /\ (IF "hi" \in DOMAIN T 
                           ELSE T.res[r] = out'[r])
             /\ UNCHANGED tid
 
-TraceDone == /\ T.out = "ok" /\ i = N /\ Len(T.res) = N
+TraceDone == /\ ~IsLong /\ T.out = "ok" /\ i = N /\ Len(T.res) = N
              /\ (IF "layout_ok" \in DOMAIN T THEN T.layout_ok = 1 ELSE TRUE)
              /\ i' = N + 1
              /\ IF Diag THEN PrintT(<<"EXPECT", tid, out>>) ELSE PrintT(<<"ACCEPT", tid>>)
              /\ UNCHANGED <<rvars, tid>>
 
-TraceNext == TraceRow \/ TraceDone
+TraceNext == TraceRow \/ TraceDone \/ TraceLong
 TraceSpec == TraceInit /\ [][TraceNext]_tvars
 TraceInv == WindowIsDef
 =============================================================================
